@@ -584,20 +584,22 @@ theorem implBlockSig_ok {dyn : Bool} {opts : Opts} {s : Sig} {tg tg' : TraitGene
   have hs := implModeSpec hn h
   obtain ⟨hgen, hc, hu, ha, hv, _⟩ := analyzeFn_fields h
   let us := (typedArgs (s.inputs.drop 1)).map FnArg.stripAttrs
-  obtain ⟨rest, hfp⟩ := C07.fixParams_impl s.ident hne us
-  have htyped : typedArgs tf.sig.inputs = implReceiverArg :: rest := by rw [hs.typed]; exact hfp
-  have htoks : (typedArgs tf.sig.inputs).map tyToks = tyToks implReceiverArg :: (typedArgs (s.inputs.drop 1)).map tyToks := by
-    have h1 : (typedArgs (typedArgs tf.sig.inputs)).map tyToks = (typedArgs (implReceiverArg :: us)).map tyToks := by
-      rw [hs.typed]; exact tyToks_fixParams s.ident _
+  obtain ⟨lt, hlt⟩ : ∃ lt, implRecvOf dyn s = implReceiverWith lt := by
+    unfold implRecvOf; split <;> exact ⟨_, rfl⟩
+  obtain ⟨rest, hfp⟩ := C07.fixParams_impl s.ident hne lt us
+  have htyped : typedArgs tf.sig.inputs = implReceiverWith lt :: rest := by rw [hs.typed, hlt]; exact hfp
+  have htoks : (typedArgs tf.sig.inputs).map tyToks = tyToks (implReceiverWith lt) :: (typedArgs (s.inputs.drop 1)).map tyToks := by
+    have h1 : (typedArgs (typedArgs tf.sig.inputs)).map tyToks = (typedArgs (implReceiverWith lt :: us)).map tyToks := by
+      rw [hs.typed, hlt]; exact tyToks_fixParams s.ident _
     rw [typedArgs_idem] at h1
     rw [h1]
-    have h2 : typedArgs (implReceiverArg :: us) = implReceiverArg :: typedArgs us := rfl
+    have h2 : typedArgs (implReceiverWith lt :: us) = implReceiverWith lt :: typedArgs us := rfl
     rw [h2]
     simp only [List.map_cons, us]
     rw [← typedArgs_map_strip, typedArgs_idem, tyToks_strip]
   unfold implBlockSigOk
   simp only [GenMember.sig?, Bool.and_eq_true, beq_iff_eq]
-  refine ⟨⟨⟨⟨?_, hs.output⟩, hs.async_⟩, by rw [htyped]; rfl⟩, ?_⟩
+  refine ⟨⟨⟨⟨?_, hs.output⟩, hs.async_⟩, by rw [htyped, hlt]; rfl⟩, ?_⟩
   · unfold sigTypesAgree
     simp only [Bool.and_eq_true, beq_iff_eq, Sig.userParams, Bool.false_eq_true, if_false]
     refine ⟨⟨⟨⟨⟨?_, by rw [hgen]; rfl⟩, hc⟩, hu⟩, ha⟩, hv⟩
@@ -605,8 +607,9 @@ theorem implBlockSig_ok {dyn : Bool} {opts : Opts} {s : Sig} {tg tg' : TraitGene
     rfl
   · rcases hs.head with ⟨rfl, hh⟩ | ⟨rfl, hh⟩
     · simp only [Bool.false_eq_true, if_false, beq_iff_eq]
-      obtain ⟨rest', hfp'⟩ := C07.fixParams_impl s.ident hne ((s.inputs.drop 1).map FnArg.stripAttrs)
-      rw [hh, hfp']; rfl
+      obtain ⟨lt', hlt'⟩ : ∃ lt', implRecvOf false s = implReceiverWith lt' := ⟨_, rfl⟩
+      obtain ⟨rest', hfp'⟩ := C07.fixParams_impl s.ident hne lt' ((s.inputs.drop 1).map FnArg.stripAttrs)
+      rw [hh, hlt', hfp']; rfl
     · simp only [if_true, beq_iff_eq]; exact hh
 
 theorem T_C03_impl (v : Variant) (attr : Toks) (m : ImplItemIn) (out : Out)
